@@ -124,3 +124,169 @@ Proof.
               ltac:(intros _; reflexivity) Hw) as [L [V [S _]]].
   split; [exact L|]. split; [exact V|exact S].
 Qed.
+
+(* ---- the probing / rest files: the same statement with the ProbingVocabulary region and the hashed search structure ---- *)
+From Kenlm Require Import C20.ProbingModel C03.ProbingImage.
+
+Lemma nn_cells_bytes : forall (kb vb : nat) (c : list cell),
+  nn (flat_map (fun kv : cell => bytes_of_Z kb (fst kv) ++ bytes_of_Z vb (snd kv)) c).
+Proof. intros. apply nn_flat_map. intros. apply nn_app; apply nn_bytes_of_Z. Qed.
+
+Lemma some_inj : forall (A : Type) (a b : A), Some a = Some b -> a = b.
+Proof. intros A a b H. injection H as H. exact H. Qed.
+
+Lemma nn_probing_vocab : forall words b v, probing_vocab_bytes words b = Some v -> nn v.
+Proof.
+  intros words b v H. unfold probing_vocab_bytes in H. destruct (table_cells b _) as [c|]; [|discriminate].
+  apply some_inj in H. rewrite <- H. apply nn_app; [apply nn_bytes_of_Z|]. apply nn_app; [apply nn_bytes_of_Z|]. apply nn_cells_bytes.
+Qed.
+
+Lemma nn_uni_bytes : forall t slots, nn (ProbingImage.uni_bytes t slots).
+Proof.
+  intros. unfold ProbingImage.uni_bytes. apply nn_flat_map. intros w.
+  destruct (alookup t [N.of_nat w]); apply nn_app; apply nn_bytes_of_Z.
+Qed.
+
+Lemma nn_rest_uni_bytes : forall t slots unset, nn (rest_uni_bytes t slots unset).
+Proof.
+  intros. unfold rest_uni_bytes. apply nn_flat_map. intros w.
+  destruct (alookup t [N.of_nat w]); [apply nn_app; [apply nn_bytes_of_Z|]|]; apply nn_app; apply nn_bytes_of_Z.
+Qed.
+
+Lemma nn_longest_bytes : forall t n b x, longest_bytes t n b = Some x -> nn x.
+Proof. intros t n b x H. unfold longest_bytes in H. destruct (table_cells b _); [|discriminate]. apply some_inj in H. rewrite <- H. apply nn_cells_bytes. Qed.
+Lemma nn_middle_bytes : forall t n b x, middle_bytes t n b = Some x -> nn x.
+Proof. intros t n b x H. unfold middle_bytes in H. destruct (table_cells b _); [|discriminate]. apply some_inj in H. rewrite <- H. apply nn_cells_bytes. Qed.
+Lemma nn_rest_middle_bytes : forall t n b x, rest_middle_bytes t n b = Some x -> nn x.
+Proof. intros t n b x H. unfold rest_middle_bytes in H. destruct (table_cells b _); [|discriminate]. apply some_inj in H. rewrite <- H. apply nn_cells_bytes. Qed.
+
+Lemma nn_tables_bytes : forall t buckets n x, tables_bytes t n buckets = Some x -> nn x.
+Proof.
+  intros t. induction buckets as [|b r IH]; intros n x H.
+  - apply some_inj in H. rewrite <- H. constructor.
+  - destruct r as [|b2 r2].
+    + exact (nn_longest_bytes _ _ _ _ H).
+    + change (tables_bytes t n (b :: b2 :: r2)) with
+        (match middle_bytes t n b, tables_bytes t (S n) (b2 :: r2) with Some x, Some y => Some (x ++ y) | _, _ => None end) in H.
+      destruct (middle_bytes t n b) as [m|] eqn:Em; [|discriminate].
+      destruct (tables_bytes t (S n) (b2 :: r2)) as [y|] eqn:Ey; [|discriminate].
+      apply some_inj in H. rewrite <- H. apply nn_app; [exact (nn_middle_bytes _ _ _ _ Em)|exact (IH _ _ Ey)].
+Qed.
+
+Lemma nn_rest_tables_bytes : forall t buckets n x, rest_tables_bytes t n buckets = Some x -> nn x.
+Proof.
+  intros t. induction buckets as [|b r IH]; intros n x H.
+  - apply some_inj in H. rewrite <- H. constructor.
+  - destruct r as [|b2 r2].
+    + exact (nn_longest_bytes _ _ _ _ H).
+    + change (rest_tables_bytes t n (b :: b2 :: r2)) with
+        (match rest_middle_bytes t n b, rest_tables_bytes t (S n) (b2 :: r2) with Some x, Some y => Some (x ++ y) | _, _ => None end) in H.
+      destruct (rest_middle_bytes t n b) as [m|] eqn:Em; [|discriminate].
+      destruct (rest_tables_bytes t (S n) (b2 :: r2)) as [y|] eqn:Ey; [|discriminate].
+      apply some_inj in H. rewrite <- H. apply nn_app; [exact (nn_rest_middle_bytes _ _ _ _ Em)|exact (IH _ _ Ey)].
+Qed.
+
+Lemma nn_probing_image : forall t slots buckets x, probing_image t slots buckets = Some x -> nn x.
+Proof.
+  intros t slots buckets x H. unfold probing_image in H. destruct (tables_bytes t 2 buckets) as [y|] eqn:E; [|discriminate].
+  apply some_inj in H. rewrite <- H. apply nn_app; [apply nn_uni_bytes|exact (nn_tables_bytes _ _ _ _ E)].
+Qed.
+Lemma nn_rest_probing_image : forall t slots buckets unset x, rest_probing_image t slots buckets unset = Some x -> nn x.
+Proof.
+  intros t slots buckets unset x H. unfold rest_probing_image in H. destruct (rest_tables_bytes t 2 buckets) as [y|] eqn:E; [|discriminate].
+  apply some_inj in H. rewrite <- H. apply nn_app; [apply nn_rest_uni_bytes|exact (nn_rest_tables_bytes _ _ _ _ E)].
+Qed.
+
+(* the description of a hashed build handed to the writer model: model type 0 (probing) or 1 (rest probing), search version 0, the counts
+   the ARPA header announced (the hashed builds do not recount), the ProbingVocabulary region v and the search structure s *)
+Definition hashed_written (rest : bool) (pm : Z) (n : nat) (arpa_counts : list Z) (v s : list Z) (words : list (list Z)) : written :=
+  {| w_order := n; w_p0 := pm_byte pm 0; w_p1 := pm_byte pm 1; w_p2 := pm_byte pm 2; w_p3 := pm_byte pm 3;
+     w_model_type := if rest then 1%nat else 0%nat; w_search_version := 0%nat;
+     w_counts := map Z.to_nat (flat_map (bytes_of_Z 8) arpa_counts);
+     w_vocab := map Z.to_nat v; w_pad := 0%nat;
+     w_search := map Z.to_nat s; w_words := map Z.to_nat (strings_bytes words) |}.
+
+Lemma hashed_written_wf : forall (rest : bool) pm n counts v s words vocab1 search1,
+  (2 <= n <= max_order)%nat -> length counts = n -> length vocab1 = length v -> length search1 = length s ->
+  wf_written (hashed_written rest pm n counts v s words) vocab1 search1.
+Proof.
+  intros rest pm n counts v s words vocab1 search1 Hn Hc Hv Hs.
+  unfold wf_written, hashed_written. cbn [w_order w_counts w_model_type w_search_version w_vocab w_search].
+  split; [exact Hn|]. split; [rewrite map_length, flat_map_bytes8_length, Hc; reflexivity|].
+  split; [unfold fits32; destruct rest; cbn; lia|]. split; [unfold fits32; cbn; lia|].
+  rewrite !map_length. split; assumption.
+Qed.
+
+Lemma hashed_file_is_final_image : forall (rest : bool) pm n counts v s words (iv : bool) wm vocab1 search1,
+  (2 <= n <= max_order)%nat -> length counts = n -> Forall nn words -> nn v -> nn s ->
+  length vocab1 = length v -> length search1 = length s ->
+  map Z.of_nat (final_image wm iv (contents_of (hashed_written rest pm n counts v s words) iv vocab1 search1))
+  = header_bytes n pm (if rest then 1%nat else 0%nat) iv 0 counts ++ v ++ s ++ (if iv then strings_bytes words else []).
+Proof.
+  intros rest pm n counts v s words iv wm vocab1 search1 Hn Hc Hw Nv Ns Hv Hs.
+  rewrite (final_image_expected wm iv _ (contents_of_wf _ iv vocab1 search1 (hashed_written_wf rest pm n counts v s words vocab1 search1 Hn Hc Hv Hs))).
+  unfold expected_image, contents_of. cbn [c_header c_vocab2 c_pad c_search2 c_words].
+  unfold hashed_written. cbn [w_order w_p0 w_p1 w_p2 w_p3 w_model_type w_search_version w_counts w_vocab w_pad w_search w_words].
+  cbn [repeat app]. rewrite !map_app.
+  unfold header_bytes, hv_byte, pm_byte. cbv zeta.
+  apply (f_equal2 (@app Z)); [destruct rest, iv; reflexivity|].
+  apply (f_equal2 (@app Z)); [apply of_to_nat; exact Nv|].
+  apply (f_equal2 (@app Z)); [apply of_to_nat; exact Ns|].
+  destruct iv; [|reflexivity]. apply of_to_nat. apply nn_strings. exact Hw.
+Qed.
+
+(* whatever the write method, and whatever the mapping held before, the file a probing build leaves is the model's probing_file ... *)
+Theorem probing_file_is_final_image : forall pm n t counts vb buckets words (iv : bool) wm vocab1 search1 file,
+  (2 <= n <= max_order)%nat -> length counts = n -> Forall nn words ->
+  probing_file pm n t counts vb buckets words iv = Some file ->
+  exists v s, probing_vocab_bytes words vb = Some v /\ probing_image t (S (Z.to_nat (nth 0 counts 0))) buckets = Some s /\
+    (length vocab1 = length v -> length search1 = length s ->
+     map Z.of_nat (final_image wm iv (contents_of (hashed_written false pm n counts v s words) iv vocab1 search1)) = file).
+Proof.
+  intros pm n t counts vb buckets words iv wm vocab1 search1 file Hn Hc Hw H. unfold probing_file in H.
+  destruct (probing_vocab_bytes words vb) as [v|] eqn:Ev; [|discriminate].
+  destruct (probing_image t _ buckets) as [s|] eqn:Es; [|discriminate]. apply some_inj in H. rewrite <- H.
+  exists v, s. split; [reflexivity|]. split; [reflexivity|]. intros Hv Hs.
+  apply (hashed_file_is_final_image false); try assumption; [exact (nn_probing_vocab _ _ _ Ev)|exact (nn_probing_image _ _ _ _ Es)].
+Qed.
+
+(* ... and a rest build's is the model's rest_file *)
+Theorem rest_file_is_final_image : forall pm n t counts vb buckets unset words (iv : bool) wm vocab1 search1 file,
+  (2 <= n <= max_order)%nat -> length counts = n -> Forall nn words ->
+  rest_file pm n t counts vb buckets unset words iv = Some file ->
+  exists v s, probing_vocab_bytes words vb = Some v /\ rest_probing_image t (S (Z.to_nat (nth 0 counts 0))) buckets unset = Some s /\
+    (length vocab1 = length v -> length search1 = length s ->
+     map Z.of_nat (final_image wm iv (contents_of (hashed_written true pm n counts v s words) iv vocab1 search1)) = file).
+Proof.
+  intros pm n t counts vb buckets unset words iv wm vocab1 search1 file Hn Hc Hw H. unfold rest_file in H.
+  destruct (probing_vocab_bytes words vb) as [v|] eqn:Ev; [|discriminate].
+  destruct (rest_probing_image t _ buckets unset) as [s|] eqn:Es; [|discriminate]. apply some_inj in H. rewrite <- H.
+  exists v, s. split; [reflexivity|]. split; [reflexivity|]. intros Hv Hs.
+  apply (hashed_file_is_final_image true); try assumption; [exact (nn_probing_vocab _ _ _ Ev)|exact (nn_rest_probing_image _ _ _ _ _ Es)].
+Qed.
+
+(* the loader of the written hashed type accepts the model's file and finds the ProbingVocabulary region and the hashed search
+   structure exactly where it looks for them *)
+Theorem hashed_file_loads_back :
+  forall pm_ok body_size words_ok (rest : bool) pm n counts v s words (iv : bool) vocab1 search1 wm lcfg,
+  let w := hashed_written rest pm n counts v s words in
+  (2 <= n <= max_order)%nat -> length counts = n -> nn v -> nn s ->
+  length vocab1 = length v -> length search1 = length s ->
+  pm_ok [w_p0 w; w_p1 w; w_p2 w; w_p3 w] = true ->
+  l_model_type lcfg = w_model_type w -> l_search_version lcfg = w_search_version w ->
+  (l_enumerate lcfg = true -> iv = true) ->
+  body_size lcfg (final_image wm iv (contents_of w iv vocab1 search1)) = (length (w_vocab w) + w_pad w + length (w_search w))%nat ->
+  (iv = true -> l_enumerate lcfg = true -> words_ok (w_counts w) (w_words w) = true) ->
+  load pm_ok body_size words_ok lcfg (final_image wm iv (contents_of w iv vocab1 search1))
+    = Some (body_of w iv, if iv && l_enumerate lcfg then Some (w_words w) else None) /\
+  map Z.of_nat (firstn (length (w_vocab w)) (skipn (header_size n) (body_of w iv))) = v /\
+  map Z.of_nat (firstn (length (w_search w)) (skipn (header_size n + length (w_vocab w) + 0) (body_of w iv))) = s.
+Proof.
+  intros pm_ok body_size words_ok rest pm n counts v s words iv vocab1 search1 wm lcfg w Hn Hc Nv Ns Hv Hs Hpm Ht Hsv He Hb Hw.
+  pose proof (hashed_written_wf rest pm n counts v s words vocab1 search1 Hn Hc Hv Hs) as Hwf. fold w in Hwf.
+  destruct (write_then_load pm_ok body_size words_ok w iv vocab1 search1 Hwf Hpm wm lcfg Ht Hsv He Hb
+              ltac:(intros _; reflexivity) Hw) as [L [V [S _]]].
+  split; [exact L|]. split.
+  - change (w_order w) with n in V. rewrite V. unfold w, hashed_written. cbn [w_vocab]. apply of_to_nat. exact Nv.
+  - change (w_order w) with n in S. change (w_pad w) with 0%nat in S. rewrite S. unfold w, hashed_written. cbn [w_search]. apply of_to_nat. exact Ns.
+Qed.
